@@ -84,6 +84,13 @@ func init() {
 
 // domConds calls f for every conditional whose outcome is fixed at ins: (cond, taken edge).
 func domConds(ins ssa.Instruction, f func(cond ssa.Value, taken bool)) {
+	for depth := 0; ins != nil && depth < 4; depth++ {
+		domCondsLocal(ins, f)
+		ins = climb(ins) // conditions established at the only call site of a helper hold inside it
+	}
+}
+
+func domCondsLocal(ins ssa.Instruction, f func(cond ssa.Value, taken bool)) {
 	blk := ins.Block()
 	for _, d := range ins.Parent().Blocks {
 		if d == blk || !d.Dominates(blk) || len(d.Instrs) == 0 {
